@@ -87,7 +87,8 @@ func NewLedger(seed int64, traceNo int, profile string, t *world.Tracer) (*Ledge
 	if profile == "single" {
 		n = 1
 	}
-	cfg := world.Config{NShards: n, WithMeta: true, Gas: world.StdGas(traceNo), EnableChange: traceNo%2 == 0, Activation: []uint32{0, 0, 2}[traceNo%3]}
+	cfg := world.Config{NShards: n, WithMeta: true, Gas: world.StdGas(traceNo), EnableChange: traceNo%2 == 0, Activation: []uint32{0, 0, 2}[traceNo%3],
+		ChangeBeforeCreate: traceNo%3 == 1}
 	addrs := world.StdAddrs(n)
 	w, err := world.New(cfg, addrs)
 	if err != nil {
